@@ -112,7 +112,7 @@ def _chunk_df(recs, schema, nx, nu, decode=True):
 
 def _cid(x):
     if isinstance(x, str):
-        return int(x[1:])
+        return gen.chromid(x)
     return int(x)
 
 
